@@ -32,7 +32,7 @@ func registerMore(m map[string]propSpec) {
 	m["C17"] = propSpec{Level: "fault_enumeration", Engines: []engine{
 		{Harness: "reg", Overlay: "base", Name: "names", Shards: 8},
 		{Harness: "reg", Overlay: "base", Name: "masks", Shards: -1},
-		{Harness: "reg", Overlay: "base", Name: "stalls", Shards: 4},
+		{Harness: "reg", Overlay: "base", Name: "stalls", Shards: 12},
 		{Harness: "reg", Overlay: "base", Name: "socket"},
 	}}
 	m["C16"] = propSpec{Level: "fault_enumeration", Engines: []engine{
